@@ -169,17 +169,17 @@ theorem instances_only_grow (fuel : Nat) (st : State) (n : LibName) (d : S.Bindi
     (∀ sets ρ, libLookup (evalImport fuel st sets ρ).2.instances n = some d) ∧
     (∀ decls, libLookup (evalLibraryDef fuel st decls).2.instances n = some d) ∧
     (∀ ρ ss, libLookup (evalStatements fuel st ρ ss).2.instances n = some d) ∧
-    (∀ s, libLookup (evalAst fuel st s).2.instances n = some d) := by
+    (∀ s, libLookup (evalAst fuel st s).2.instances n = some d) ∧
+    (∀ text, libLookup (evalText fuel st text).2.instances n = some d) := by
   have I := invAt storeRel_true fuel
-  refine ⟨fun s => ?_, fun name loc => ?_, fun sets ρ => ?_, fun decls => ?_, fun ρ ss => ?_, fun s => ?_⟩
+  refine ⟨fun s => ?_, fun name loc => ?_, fun sets ρ => ?_, fun decls => ?_, fun ρ ss => ?_, fun s => ?_,
+    fun text => evalText_instances fuel st text n d h⟩
   · exact (I.importSet (r := _) (st' := _) rfl).instances n d h
   · exact (I.getLibrary (r := _) (st' := _) rfl).instances n d h
   · exact (I.import_ (r := _) (st' := _) rfl).instances n d h
   · exact (I.libraryDef (r := _) (st' := _) rfl).instances n d h
   · exact (I.statements (r := _) (st' := _) rfl).instances n d h
-  · obtain ⟨st1, h1, i⟩ := evalAst_inv storeRel_true (fuel := fuel) (st := st) (s := s) (r := _) (st' := _) rfl
-    apply i.instances n d
-    rcases h1 with rfl | rfl <;> exact h
+  · exact evalAst_instances fuel st s n d h
 
 example : libLookup (evalImport 3 { demoState with instances := [([.ident "k"], [])] }
     [.direct demoLib none] 0).2.instances [.ident "k"] = some [] :=
